@@ -276,7 +276,8 @@ def run(pid, tier, seed, replay, t0):
                         break
                 if found:
                     violations.append(found)
-            sec_reports.append(dict(section=sec.name, cases=len(cases), distinct_nontrivial=len(keys), disagreements=n_dis, oracle_failures=n_orc, histogram=dict(sorted(hist.items(), key=lambda kv: str(kv[0]))), rule=sec.rule, exhaustive_part=sec.exhaustive, theorems=sec.theorems, impl_s=round(t_impl, 2), model_s=round(t_model, 2)))
+            n_err = sum(1 for io in impl_obs if isinstance(io, dict) and io.get("error"))
+            sec_reports.append(dict(section=sec.name, cases=len(cases), impl_raised=n_err, distinct_nontrivial=len(keys), disagreements=n_dis, oracle_failures=n_orc, histogram=dict(sorted(hist.items(), key=lambda kv: str(kv[0]))), rule=sec.rule, exhaustive_part=sec.exhaustive, theorems=sec.theorems, impl_s=round(t_impl, 2), model_s=round(t_model, 2)))
         finally:
             if sec.teardown:
                 sec.teardown(ctx)
